@@ -2360,6 +2360,14 @@ class TupleParser:
         if val is None:
             return None
 
+        if not isinstance(val, str):
+            # E.g. EmbeddedObject attribute on an element whose TYPE is not
+            # 'string', so that the value was already converted
+            raise CIMXMLParseError(
+                _format("Embedded object value must be a string, but is: "
+                        "{0!A}", val),
+                conn_id=self.conn_id)
+
         # Perform the un-embedding (may raise XMLParseError)
         tup_tree = xml_to_tupletree_sax(val, "embedded object", self.conn_id)
 
